@@ -123,6 +123,46 @@ INFO = {
  "C19-m6": ("BVH median split sorts with partial_cmp().unwrap()", "a 1e39 TILT / AZIMUTH / Z of a shade in a project with more than 30 occluders, through the tool's indicator stage"),
  "C20-m5": ("beam floor raised from 0.01 to 1 degree", "sun below 1 degree with direct radiation > 0"),
  "C20-m6": ("asin argument clamped on one side only", "afternoon sun exactly due west (NaN)"),
+ "C01-m7": ("debug println! left active in the on-site Cogeneración branch of the systems reader", "a project with valMenELE = SI and a Cogeneración row"),
+ "C01-m8": ("loader wraps geometry.azimuth into [-180,180]", "a window fin on a wall facing W-NW-N (converter emits azimuth - 90 unnormalised)"),
+ "C02-m7": ("fin / overhang shade ids hashed without the geometry", "a window with two equal fins"),
+ "C02-m8": ("undefined PEOPLE-SCHEDULE swallowed when AREA/PERSON = 0", "a zero-occupancy SPACE-CONDITIONS block whose people schedule reference is broken"),
+ "C03-m7": ("edge normal chosen away from the outline's vertex mean", "a notch edge of a concave outline"),
+ "C03-m8": ("space AZIMUTH left out of the azimuth of polygon-defined walls", "a rotated SPACE with a wall defined by its own POLYGON"),
+ "C04-m7": ("empty extra list skipped on save", "extra = Some(vec![])"),
+ "C04-m8": ("from_json clears next_to on non-INTERIOR walls", "an exterior / ground / adiabatic wall with next_to"),
+ "C05-m7": ("latitude frozen in a process-wide OnceLock", "a mainland and a Canary-zone model computed in one process"),
+ "C05-m8": ("BUILDING-SHADE id includes its list position", "another shade written before an existing one"),
+ "C06-m7": ("exposed perimeter counts partitions to any different kind of space", "a ground slab in a non-conditioned space with a partition to another kind (a class the oracle leaves undecided)"),
+ "C06-m8": ("Model::global_ventilation_rate divides by all habitable spaces", "global ventilation, a neighbour without own rate, a habitable space outside the envelope"),
+ "C07-m7": ("window U rounded twice", "dU > 0 and a frame/glass mean with a third decimal"),
+ "C07-m8": ("frame-fraction guard with a half-open range", "F_f exactly 1.0"),
+ "C08-m7": ("negative-length bridges skipped with skip_while", "a negative bridge whose id sorts after a non-negative one"),
+ "C08-m8": ("walls with zero net area skipped before the window loop", "a fully glazed envelope wall"),
+ "C09-m7": ("blower-door value ignored for non-dwellings", "a tertiary building with a test value"),
+ "C09-m8": ("window construction with C_100 = 0 gets the 100 default", "c_100 = 0 on a used construction"),
+ "C10-m7": ("a window without construction also loses its F_sh;obst", "missing construction plus an override or computed factor < 1"),
+ "C10-m8": ("orientation classifier rewritten symmetrically", "an azimuth exactly on a west-side sector limit"),
+ "C11-m7": ("ADIABATIC elements regrouped with INTERIOR in the envelope rule", "an adiabatic element of an inside space, read through is_tenv"),
+ "C11-m8": ("reported ventilation rate divided by vol_env_net", "global ventilation plus an uninhabited space inside the envelope"),
+ "C12-m7": ("occluder bounding box from two opposite corners", "a canopy both sloped and turned in plan"),
+ "C12-m8": ("occluder list cached per thread, keyed on ids", "geometry changed with ids kept, computed again on the same thread"),
+ "C13-m7": ("BVH build dedups neighbours with equal boxes", "two different polygons with bit-identical bounding boxes, adjacent in the list"),
+ "C13-m8": ("Ray::new keeps directions shorter than 1 un-normalised", "a tiny direction vector (|dir| * |cos| < 1e-5)"),
+ "C14-m7": ("ventilation-rate guard tests vol_env_net", "global ventilation set and only uninhabited spaces inside the envelope"),
+ "C14-m8": ("Polygon::normal indexes [2] for two-vertex polygons", "a positioned shade / exterior wall with exactly two vertices"),
+ "C15-m7": ("window host-wall check only against walls whose space exists", "an intact window on a wall with a dangling space"),
+ "C15-m8": ("missing constructions reported once per target id", "two elements dangling to the same absent construction"),
+ "C16-m7": ("thermostats counted as used only for CONDITIONED spaces", "a non-conditioned space with its own thermostat"),
+ "C16-m8": ("one growing used-id set shared by year, week and day lists", "an unreachable week whose id equals a used year's id"),
+ "C17-m7": ("average load: spaces without loads enter the area denominator", "a habitable inside space with loads = None"),
+ "C17-m8": ("daily schedule values rounded to two decimals on conversion", "a daily profile value with three decimals"),
+ "C18-m7": ("shade vertices taken in attribute-map (lexicographic) order", "a vertex-defined shade with 10 or more vertices"),
+ "C18-m8": ("default absorptance overwrites a written zero", "a CONSTRUCTION with ABSORPTANCE = 0"),
+ "C19-m7": (".tbl element line split from the right underflows", "a damaged .tbl whose name/values pairing is shifted or short"),
+ "C19-m8": ("KyG insolation factors stored by unchecked index", "the leading index of a factor line replaced by 9 or more"),
+ "C20-m7": ("sun azimuth discriminator loses cos(declination)", "hour angles next to the due-east/west crossing in summer"),
+ "C20-m8": (".met rows numbered with a leap reference year", "any date from 1 March on"),
 }
 res = {}
 try:
@@ -132,6 +172,11 @@ except Exception:
 thorough = {}
 try:
     thorough = json.load(open('/verif/seeded/thorough_results.json'))
+except Exception:
+    pass
+undecided = {}
+try:
+    undecided = json.load(open('/verif/seeded/undecided.json'))
 except Exception:
     pass
 rows = []
@@ -148,6 +193,8 @@ for d in sorted(glob.glob('/verif/seeded/C*-m*')):
         m['detection'] = r
     if name in thorough:
         m['detection_thorough'] = thorough[name]
+    if name in undecided:
+        m['not_asserted_by_design'] = undecided[name]
     json.dump(m, open(mp, 'w'), indent=1, ensure_ascii=False)
     rows.append((name, m['property'], breaks, needs, r))
 with open('/verif/seeded/RESULTS.md', 'w') as f:
@@ -155,7 +202,7 @@ with open('/verif/seeded/RESULTS.md', 'w') as f:
     for name, prop, breaks, needs, r in rows:
         if r:
             t = thorough.get(name)
-            verdict = "caught (exit 1)" if r.get('rc') == 1 else ("not by the quick tier; caught by the thorough tier (exit 1): %s" % t.get('signatures', '') if t and t.get('rc') == 1 else "NOT caught (exit %s)" % r.get('rc'))
+            verdict = "caught (exit 1)" if r.get('rc') == 1 else ("not caught, by design: " + undecided[name]) if name in undecided else ("not by the quick tier; caught by the thorough tier (exit 1): %s" % t.get('signatures', '') if t and t.get('rc') == 1 else "NOT caught (exit %s)" % r.get('rc'))
             f.write("| %s | %s | %s | %s | %s |\n" % (name, breaks, needs, verdict, r.get('signatures', '')))
         else:
             f.write("| %s | %s | %s | not run yet | |\n" % (name, breaks, needs))
